@@ -12,6 +12,8 @@ Tb_vals2 == {<<0, 0>>, <<2, 1>>, <<2, 2>>}
 Tb_vals == {<<0, 0>>, <<1, 0>>, <<1, 1>>, <<1, 2>>}
 Order2 == <<"A", "B">>
 Order3 == <<"A", "B", "C">>
+Order4 == <<"A", "B", "C", "D">>
+Hooks_mix4 == ("A" :> {"stop"}) @@ ("B" :> {}) @@ ("C" :> {"start"}) @@ ("D" :> {})
 Hooks_life == ("A" :> {"eval", "start", "stop"}) @@ ("B" :> {"stop"})
 Hooks_none2 == ("A" :> {}) @@ ("B" :> {})
 Hooks_none3 == ("A" :> {}) @@ ("B" :> {}) @@ ("C" :> {})
